@@ -165,6 +165,27 @@ pub fn format_texts(seed: u64, n: usize) -> Vec<String> {
     sample_values(seed, "corpus-fmt", 0, n, &c14::gen_format()).into_iter().filter(|s| !s.contains('\'')).map(|s| format!("-printf '{s}'")).collect()
 }
 
+/// many distinct names (each takes two generated identifiers) before file/stdout actions, so that
+/// identifier and tag numbers cross 255; long -type lists
+pub fn many_resources_texts() -> Vec<String> {
+    let mut out = vec![];
+    for n in [100usize, 126, 127, 128, 129, 130, 200] {
+        let names: Vec<String> = (0..n).map(|i| format!("-name p{i}")).collect();
+        for tail in ["-fprint found.txt", "-print0", "-fprintf o.txt %p -fprint0 q", "-print", "-printf %p\\n -print"] {
+            let s = format!("( {} ) {tail}", names.join(" -o "));
+            if within_bounds(&s) {
+                out.push(s);
+            }
+        }
+    }
+    let dests: Vec<String> = (0..260).map(|i| format!("-fprint o{i}")).collect();
+    out.push(dests.join(" "));
+    out.push("-type f,d,l,b,c,p,s,f,d".into());
+    out.push("-type f,f,f,f,f,f,f,f,f,f,f,f,f,f,f,f,f,d -print0".into());
+    out.retain(|s| within_bounds(s));
+    out
+}
+
 /// deep but bounded nesting (<= 64 of '(' and '!')
 pub fn nesting_texts() -> Vec<String> {
     let mut out = vec![];
@@ -234,6 +255,11 @@ pub fn texts(seed: u64, tier: Tier, shard: usize, nshards: usize) -> Vec<String>
         }
     }
     for (i, t) in long_word_texts().into_iter().enumerate() {
+        if i % nshards == shard {
+            all.push(t);
+        }
+    }
+    for (i, t) in many_resources_texts().into_iter().enumerate() {
         if i % nshards == shard {
             all.push(t);
         }
